@@ -24,7 +24,8 @@ RULE = ("random ordered trees (<= 60 nodes, <= 12 /Pages levels, fan-out 0..6, e
         "MediaBox / CropBox / Resources (direct, indirect, inherited, absent; a share of the resource dictionaries with a /ColorSpace "
         "sub-dictionary of well-formed DeviceN (4 and 5 elements, type 2 / 4 / 0 tint transforms), Separation, Indexed (string and stream "
         "look-up), ICCBased, CalGray, CalRGB, Lab, Pattern and device spaces: the page is still the i-th leaf with these resources, and "
-        "page_cs (no model) reads every colour space back as written), random object numbering, direct or object-stream storage, "
+        "page_cs (no model) reads every colour space back as written; files in which one non-root last-kid node's resources hold a stitching "
+        "(type 3) tint transform: tag stitching-tint-transform, open finding C07-b), random object numbering, direct or object-stream storage, "
         "classic or stream xref, cached and uncached File; each file: num_pages and get_page(i) for i in 0..count+2 (page_query) or the "
         "pages() iterator (page_iter), judged against the leaf list computed from the tree and against the model on the tree's store; "
         "plus out-of-domain stores (untrue counts, foreign /Parent links, /Kids cycles, 13..20 levels, page numbers near 2^32) judged "
@@ -140,6 +141,69 @@ def colour_shape(rng):
         x.cs = PT.colour_spaces(rng, next_free, everything=True)
     data = PT.render(root, rng, n + 1, {rnum: "QR"}, {}, compress=rng.choice([0.0, 0.5, 1.0]))
     return data, root
+
+
+# ---- finding C07-b (open): a tint transform of function type 3 (stitching) makes the pages below it unloadable ---------------
+STITCH_TAG = "stitching-tint-transform"
+_STITCH = {}          # case key -> (expected fields, indices of the pages the open finding is allowed to fail on)
+
+
+def stitching_case(rng, shape, cached, tags=()):
+    """a well-formed tree in which ONE node B - not the root, the last of its parent's /Kids - has a /Resources dictionary whose
+    /ColorSpace names a Separation / DeviceN with a stitching (type 3) tint transform.  By the statement every page is returned
+    with its own or inherited resources (the check below is the ordinary page_cs check).  The library has no reader for type 3
+    functions and reads /Resources eagerly, so it fails to load B: the open finding C07-b covers exactly the pages that are B or
+    lie below B (B is loaded on their way; it precedes no sibling, so no other page passes through it) and, when B is a kid of
+    the root, the query one past the last page."""
+    PT.finish(shape)
+    n = len(PT.nodes(shape))
+    PT.number(shape, rng, first=1)
+    nxt = [n + 1]
+
+    def next_free():
+        v = nxt[0]
+        nxt[0] += 1
+        return v
+    cat = next_free()
+    res_objs, boxrefs = PT.decorate(shape, rng, next_free)
+    if shape.res is None:
+        shape.res = ("D", "Root")
+    if shape.mb is None:
+        shape.mb = (0, 0, 612, 792)
+    cands = [x for x in PT.nodes(shape) if x.parent is not None and x.parent.kids[-1] is x and PT.nleaves(x) > 0]
+    if not cands:
+        return None
+    b = rng.choice(cands)
+    b.res = ("D", "St%d" % b.num)
+    b.cs = PT.colour_spaces(rng, next_free, stitching=True)
+    data = PT.render(shape, rng, cat, res_objs, boxrefs, compress=rng.choice([0.0, 0.0, 0.5, 1.0]))
+    below = {id(lf) for lf, _ in PT.leaves(b)}
+    failing = {i for i, (lf, _) in enumerate(PT.leaves(shape)) if id(lf) in below}
+    if b.parent is shape:
+        failing.add(PT.nleaves(shape))     # the query one past the last page walks all of the root's kids, B included, before it can say PageOutOfBounds
+    c = mk_cs(data, shape, cached, tags=list(tags) + [STITCH_TAG])
+    _STITCH[c.key()] = (PT.expected_cs_query(shape, PT.nleaves(shape) + 1), failing)
+    return c
+
+
+def stitching_witness():
+    """the stored witness of C07-b: three pages, the second and third below a /Pages node whose resources hold a stitching function"""
+    import random
+    L, T = PT.leaf, PT.tree
+    shape = T([L(res=("D", "A")), T([L(res=("D", "Own")), L()])], mb=(0, 0, 612, 792), res=("D", "Root"))
+    return stitching_case(random.Random(707), shape, False, tags=["fixed:stitching"])
+
+
+def stitching_cases(rng, tier):
+    yield stitching_witness()
+    made = 0
+    for i in range(200):
+        if made >= (8 if tier == "quick" else 120):
+            break
+        c = stitching_case(rng, PT.gen_shape(rng, max_nodes=25, target_h=rng.choice([1, 2, 3, 4])), bool(i % 2), tags=["random"])
+        if c is not None:
+            made += 1
+            yield c
 
 
 def example_tree():
@@ -295,6 +359,8 @@ def generate(rng, tier):
         if any(x.cs is not None for x in PT.nodes(root)) and (tier != "quick" or n_cs < 60):
             n_cs += 1
             yield mk_cs(data, root, cached=bool(n_cs % 2), tags=tags)
+    for c in stitching_cases(rng, tier):
+        yield c
     for c in out_of_domain(rng, tier):
         yield c
 
@@ -311,10 +377,27 @@ def always(case, r):
 
 
 def classify(case, impl, model):
+    """C07-b (class stitching-tint-transform): the case is one of stitching_case's files AND the answer is wrong in exactly the way
+    the finding describes: the right page count, `!Other` for precisely the pages at or below the node whose resources hold the
+    type 3 function (and for the out-of-range query when that node is a kid of the root), the specified answer for every other page.  Anything else on these files stays a violation."""
+    if STITCH_TAG in case.tags and case.key() in _STITCH and impl and impl[0] == "OK":
+        want, failing = _STITCH[case.key()]
+        got = impl[1]
+        if failing and len(got) == len(want) and got[0] == want[0] and \
+                all((g == b"!Other") if (i in failing) else (g == e) for i, (g, e) in enumerate(zip(got[1:], want[1:]))):
+            return "C07-b"
     return None
 
 
 def witness_case(f, c):
+    if f["id"] == "C07-b":
+        w = stitching_witness()
+        w.kind, w.note = "witness", f["id"]
+        # attributed through classify() like every generated case of the class (not through the witness tag), so that a
+        # different wrong answer on the witness is still a violation
+        if w.fields != c.fields or w.mode != c.mode:
+            w.check = lambda r: "stored witness of C07-b differs from the regenerated one (machinery)"
+        return w
     # C07-a (fixed): the answer is an ordinary result, not a panic; the model predicts it exactly
     c.check = lambda r: None if r[0] in ("OK", "ERR") else "panic / abort on untrue counts: %s %s" % (r[0], r[1])
     return c
